@@ -7,7 +7,7 @@ from shexer.model.IRI import IRI as model_IRI
 from shexer.model.bnode import BNode as model_BNode
 from shexer.model.property import Property as model_Property
 
-from shexer.utils.uri import decide_literal_type
+from shexer.utils.uri import LANG_STRING_TYPE, STRING_TYPE
 from shexer.utils.compression import get_content_gz_file, get_content_zip_internal_file, get_content_xz_file
 
 _SUPPORTED_FORMATS = [N3, TURTLE, RDF_XML, NT, JSON_LD]
@@ -80,11 +80,12 @@ class RdflibTripleYielder(BaseTriplesYielder):
     def _turn_into_model_literal(rdflib_literal):
         content = str(rdflib_literal)
         if rdflib_literal.language is not None:
-            content = '"' + content + '"@' + rdflib_literal.language
+            return model_Literal(content='"' + content + '"@' + rdflib_literal.language,
+                                 elem_type=LANG_STRING_TYPE)
         return model_Literal(content=content,
                              elem_type=str(rdflib_literal.datatype)
                              if rdflib_literal.datatype is not None
-                             else decide_literal_type(content))
+                             else STRING_TYPE)
 
 
     @property
